@@ -627,7 +627,7 @@ func monC17probe(hr *HistRun, p Probe, a ProbeAns) string {
 			}
 			switch {
 			case o.Kind == "create":
-				for acc, kvs := range o.AccMeta {
+				for acc, kvs := range o.accMetaAll() {
 					set(acc, kvs)
 				}
 			case o.Kind == "setmeta" && o.IsAcc:
